@@ -470,7 +470,6 @@ def run_check(pid, tier, seed, repo, replay=None):
         for i in mism:
             if stream.get("pinned"):
                 failing.setdefault(i, "implementation differs from the proven model")
-        unpinned_mism = [i for i in mism if i not in failing]
         # classification against the known findings
         classify = stream.get("classify")
         fresh = []
@@ -480,6 +479,8 @@ def run_check(pid, tier, seed, repo, replay=None):
                 known_hits.setdefault(kid, (sname, cases[i], results[i], failing[i]))
             else:
                 fresh.append(i)
+        # a case that only reproduces a known finding must still agree with the model (which has the finding in it)
+        unpinned_mism = [i for i in mism if i not in fresh]
         if fresh:
             i = fresh[0]
             case = cases[i]
